@@ -129,6 +129,10 @@ def main():
             "name": "vcheck", "path": "/verif/vcheck",
             "serves_properties": sorted(CHECKS),
             "kind_free_text": "python driver: TLC model checking of spec/<subsystem>/*.tla, TLC case/behaviour generation, Go replay into the real library (harness/), TLC trace validation of recorded executions",
+        }, {
+            "name": "vcheck-extras", "path": "/verif/vcheck",
+            "serves_properties": [],
+            "kind_free_text": "specifications grown beyond the listed properties, same pipeline, run as ./vcheck X01 (token-bucket rate limiter, spec/rate), ./vcheck X02 (context cancellation tree, spec/context), ./vcheck X03 (the library's RTMP writer validated chunk by chunk against RtmpChunk's reference receiver, spec/rtmp/Trace_RtmpWriter.tla); they are not properties of properties.jsonl and therefore not listed under checks",
         }],
         "checks": checks,
         "not_applicable": [{"property_id": p, "reason": NOT_YET} for p in ALL if p not in CHECKS],
